@@ -8,15 +8,23 @@ from . import cfg_sat as C
 GEN = os.path.join(BUILD, "gen")
 
 
-def corpus(kind="all"):
-    """Grammar corpus: every .par under /repo (examples, crates, test data) + /verif/grammars."""
+def corpus(kind="all", generated=True):
+    """Grammar corpus: every .par under /repo (examples, crates, test data) + /verif/grammars +
+    a seeded family of generated grammars (engine_g/gramgen.py; VERIF_SEED selects the family)."""
     files = []
     for root in (os.path.join(REPO, "examples"), os.path.join(REPO, "crates"), os.path.join(VERIF, "grammars")):
         for f in glob.glob(os.path.join(root, "**", "*.par"), recursive=True):
             if "/target/" in f or "-exp.par" in f or "/actual/" in f:
                 continue
             files.append(f)
-    return sorted(set(files))
+    files = sorted(set(files))
+    if generated:
+        from . import gramgen
+        from lib.common import seed, tier
+        n = 40 if tier() == "quick" else 300
+        d = os.path.join(BUILD, "gen", "gram", "s%d_%s" % (seed(), tier()))
+        files += gramgen.generate(d, seed(), {"ebnf": n, "prefix": n, "look": n, "lr": n // 2, "ebnf_lr": n // 2})
+    return files
 
 
 def gid(path):
